@@ -29,6 +29,16 @@ CHECKS = {
              'arithmetic for the argument terms; float64 rounding only for the listed primitive shapes.',
         technique=TECH + ' (QF_UFLRA) and z3 floating-point theory (QF_FP) for the float64 lemmas',
         design='3/C05'),
+    'C13': dict(
+        text='Bounded solver verdict on the real dea3 executed on symbolic arrays: for ALL real inputs abserr>=0 and '
+             'abserr>=|result-v2| (hence honest against any X the inputs are within t of), element independence, inputs '
+             'unmodified, symmetric=True only trims; for all L,a,q in a 30-decade box on the Shanks branch |result-L|<=1e-250 '
+             '(QF_NRA); IEEE totality (finite, non-negative abserr) bit-blasted in z3 FP: float32 with rescaled constants in the '
+             'quick tier, float64 with the real constants and |e|<=1e100 in the thorough tier.',
+        note='Trusted: z3 (NRA, FP); symbolic numpy layer (validated against the float library on random and tie inputs every '
+             'run). The floating-point rounding amplification of the geometric case is outside the claim.',
+        technique=TECH + ' (QF_UFLRA/QF_NRA) and z3 floating-point theory (QF_FP) on the same trace',
+        design='3/C13'),
 }
 
 NOT_APPLICABLE = {
